@@ -4,6 +4,7 @@ pub mod big;
 pub mod out;
 pub mod proj;
 pub mod rng;
+pub mod textgen;
 pub mod w;
 pub mod r;
 
